@@ -95,6 +95,7 @@ def run(repo, rep):
         if isinstance(v, ast.Call) and call_name(v) == 'set' and 'visit' in name.lower():
             n += 1
             rep.fail('C13.c', 'module-level-set:%s' % name, m.relpath, 'module-level visited set %s' % name)
+    n += ctxmodel.construction_sites(repo, rep, 'C13.c', 'the visited set must be created per top-level call and shared by every context derived in it')
     rep.floor('C13.c', n, 4)
 
     # ---------------------------------------------------------------- C13.d
